@@ -257,7 +257,7 @@ def check_impls(run, f, cfg):
         run.ob("C04.R4", "impl:%s" % i["self_ty"], not extra,
                "impl Iden for %s does not override %s (the default doubling applies)" % (i["self_ty"], "prepare/quoted" if not extra else "/".join(extra)),
                sp=i["sp"], cfg=cfg)
-    run.floor("C04.R4", "iden-impls", n, 4, cfg)
+    run.floor("C04.R4", "iden-impls", n, {"full": 4, "single": 2}, cfg)
 
 
 def check(run):
